@@ -262,7 +262,7 @@ def model_check(ctx: Ctx, progs: list[dict], dev: bool = True, invariants=None, 
         "{TRUE, FALSE}" if dev == "both" else "{TRUE}" if dev else "{FALSE}", devs or DEVS)
     cfg += "".join(f"INVARIANT {i}\n" for i in inv)
     if hang_report:
-        cfg += "INVARIANT HangReport\nINVARIANT ForkReport\nINVARIANT CseErrReport\nINVARIANT OrphanReport\n"
+        cfg += "INVARIANT HangReport\nINVARIANT ForkReport\nINVARIANT CseErrReport\nINVARIANT OrphanReport\nINVARIANT RefReport\n"
     cfg += "CHECK_DEADLOCK FALSE\n"
     return run_tlc("sched/Scheduler.tla", cfg, ctx.scratch, workers=workers,
                    env={"PROGRAM_FILE": str(f)}, timeout=timeout, heap="8g")
@@ -329,6 +329,19 @@ def callgraph_digest(backend, execution_id: str) -> dict:
     return {"calls": calls, "args": [list(a) for a in args]}
 
 
+def safe_digest(backend, execution_id: str) -> dict:
+    """callgraph_digest that survives a session left in a failed state by the run it looks at (a run that died
+    inside the backend must be judged by the contract, not stop the harness)."""
+    try:
+        return callgraph_digest(backend, execution_id)
+    except Exception:  # noqa
+        try:
+            backend.session.rollback()
+            return callgraph_digest(backend, execution_id)
+        except Exception:  # noqa
+            return {"calls": [], "args": [], "unreadable": True}
+
+
 class History:
     """One program on one backend file: executes the plan, run by run."""
 
@@ -353,7 +366,7 @@ class History:
             eid = str(uuid.uuid4())
             out = simloop.run_controlled(s, d, self.pm.root_expr(), dryrun=(mode == "dry"), cache=cache,
                                          execution_id=eid)
-            digest = callgraph_digest(bk, eid)
+            digest = safe_digest(bk, eid)
         finally:
             simloop.close_backend(bk)
         drift = None
@@ -393,11 +406,7 @@ class History:
         d.events, d.submitted, d.nsteps, d.njobs, d.chooser, d.last_choice = list(carried), [], 0, 0, chooser, None
         eid = str(uuid.uuid4())
         out = simloop.run_controlled(s, d, self.pm.root_expr(), dryrun=(mode == "dry"), cache=cache, execution_id=eid)
-        try:
-            digest = callgraph_digest(self._bk, eid)
-        except Exception:  # noqa  (a run that died inside the backend may leave the session unusable)
-            self._bk.session.rollback()
-            digest = {"calls": [], "args": []}
+        digest = safe_digest(self._bk, eid)
         rec = {"mode": mode, "cache": cache, "ver": dict(self.ver), "limits": self.prog["limits"], "out": out,
                "events": d.events, "digest": digest, "drift": None, "calls": dict(d.calls),
                "nsub": len(d.submitted), "run_index": len(self.runs) + 1, "carried": len(carried),
@@ -630,7 +639,12 @@ def suite(ctx: Ctx, on: list[str], n_random_progs: int, n_sim: int, n_random_his
     for need in need_handlers:
         if not hk.get(need):
             raise MachineryError(f"no replayed behaviour exercises the {need} handler: the check would be vacuous")
+    # reference outcome of every run of every program, from the model's big-step semantics (REF records)
     expects: dict[int, list] = {}
+    for r in mc.recs("REF"):
+        expects.setdefault(r["pi"], r["refs"])
+    if len(expects) != len(progs):
+        raise MachineryError(f"reference outcomes for {len(expects)} of {len(progs)} programs")
     for b in behs:
         if not b.get("hung") and len(b["runs"]) == sum(1 for st in progs[b["pi"] - 1]["plan"] if st["k"] == "run"):
             expects.setdefault(b["pi"], expects_from_model(b))
